@@ -590,3 +590,121 @@ func runCodecMode(seed int64, n int, sub string, tr *transcript) {
 		}
 	}
 }
+
+// ---- replay of node-level lines ----------------------------------------------------------------
+
+var replayBares = map[int]*bareDrv{}
+
+func atoiOr(s string) int { v, _ := strconv.Atoi(s); return v }
+
+func parsePfx(h string) (p [10]byte) {
+	b, _ := hex.DecodeString(h)
+	copy(p[:], b)
+	return
+}
+
+// replayNodeLine re-executes one `bn …` / `fn …` command of a transcript.
+func replayNodeLine(f []string, tr *transcript) {
+	if f[0] == "fn" {
+		replayFn(f, tr)
+		return
+	}
+	id := atoiOr(f[2])
+	switch f[1] {
+	case "new":
+		plen := uint32(atoiOr(f[3]))
+		pfx := parsePfx(f[4])
+		replayBares[id] = &bareDrv{tr: tr, r: rand.New(rand.NewSource(1)), id: id, n: art.NewVerifBareNode(plen, pfx), present: map[byte]uint32{}}
+		tr.emit(strings.Join(f, " "), "ok")
+		return
+	}
+	d := replayBares[id]
+	if d == nil || d.dead {
+		return
+	}
+	switch f[1] {
+	case "addl":
+		b, cid := byte(atoiOr(f[3])), uint32(atoiOr(f[4]))
+		d.present[b] = cid
+		d.emit(strings.Join(f, " "), func() string { d.n.AddLeaf(b, cid); return d.n.Raw() })
+	case "addi":
+		b, cid := byte(atoiOr(f[3])), uint32(atoiOr(f[4]))
+		d.present[b] = cid
+		d.emit(strings.Join(f, " "), func() string { d.n.AddInner(b, cid, uint32(atoiOr(f[5])), parsePfx(f[6])); return d.n.Raw() })
+	case "rm":
+		b := byte(atoiOr(f[3]))
+		delete(d.present, b)
+		d.emit(strings.Join(f, " "), func() string { d.n.Remove(b); return d.n.Raw() })
+		if !d.dead && d.n.Collapsed() {
+			d.dead = true
+		}
+	case "find":
+		b := byte(atoiOr(f[3]))
+		d.emit(strings.Join(f, " "), func() string {
+			if id, ok := d.n.Find(b); ok {
+				return strconv.Itoa(int(id))
+			}
+			return "-"
+		})
+	case "enum":
+		d.emit(strings.Join(f, " "), func() string {
+			ids := d.n.Enumerate(f[3] == "desc")
+			if len(ids) == 0 {
+				return "-"
+			}
+			parts := make([]string, len(ids))
+			for i, x := range ids {
+				parts[i] = strconv.Itoa(int(x))
+			}
+			return strings.Join(parts, ",")
+		})
+	case "inv":
+		tr.emit(strings.Join(f, " "), "ok")
+	}
+}
+
+func replayFn(f []string, tr *transcript) {
+	cmd := strings.Join(f, " ")
+	u32 := func(s string) uint32 { v, _ := strconv.ParseUint(s, 16, 32); return uint32(v) }
+	out := safely(func() string {
+		switch f[1] {
+		case "search4":
+			return strconv.Itoa(art.VerifSearchNode4(u32(f[2]), byte(atoiOr(f[3]))))
+		case "inspos4":
+			return strconv.Itoa(art.VerifInsertPosNode4(u32(f[2]), byte(atoiOr(f[3]))))
+		case "getat":
+			return strconv.Itoa(int(art.VerifGetAtPos(u32(f[2]), atoiOr(f[3]))))
+		case "setat":
+			return fmt.Sprintf("%08x", art.VerifSetAtPos(u32(f[2]), atoiOr(f[3]), byte(atoiOr(f[4]))))
+		case "shl":
+			return fmt.Sprintf("%08x", art.VerifShiftLeftClear(u32(f[2]), atoiOr(f[3])))
+		case "shr":
+			return fmt.Sprintf("%08x", art.VerifShiftRightClear(u32(f[2]), atoiOr(f[3])))
+		case "search16", "inspos16":
+			var keys [16]byte
+			b, _ := hex.DecodeString(f[2])
+			copy(keys[:], b)
+			if f[1] == "search16" {
+				return strconv.Itoa(art.VerifSearchNode16(&keys, uint8(atoiOr(f[3])), byte(atoiOr(f[4]))))
+			}
+			return strconv.Itoa(art.VerifInsertPosNode16(&keys, uint8(atoiOr(f[3])), byte(atoiOr(f[4]))))
+		case "enc", "dec", "ordcmp":
+			ty := f[2]
+			if ty == fmt.Sprintf("u%d", bits.UintSize) && false {
+				ty = "uint"
+			}
+			w := widthOf(ty)
+			switch f[1] {
+			case "enc":
+				return hexLit(encNum(ty, parseBits(f[3], w)))
+			case "dec":
+				return decNum(ty, unhex(f[3]))
+			default:
+				a, b := parseBits(f[3], w), parseBits(f[4], w)
+				return fmt.Sprintf("%d %d", declaredCmp(ty, a, b), bytes.Compare(encNum(ty, a), encNum(ty, b)))
+			}
+		}
+		return "unknown-fn"
+	})
+	tr.emit(cmd, out)
+}
